@@ -14,6 +14,12 @@ Subset (anything else is REFUSED, per function, with a message; the committed bl
                 `+` on strings/ints, `-` on ints, `len`, `s[k]`, `s[k:]`, `s[:k]`, `.startswith .endswith .find
                 .replace .lower`, `.split("c")`, word attributes `.value .quote_token`, conditional expressions,
                 calls of other translated functions and direct self-recursion (bounded by `Py.fuel`).
+Third batch (Phil/Props/Translated3.lean): kind="chain" — a function that climbs `primary_parent_scope` with
+`while X is not None:` (guards `if t: break`, one `L.append(e)`, `X = X.primary_parent_scope`), `L = [e]`, `L.reverse()`,
+`"sep".join(L)`: the chain is a parameter (names of the ancestors, innermost first) and the loop a structural recursion;
+kind="expr" — ONE expression of a big function (the test of the k-th `if`, the right side of the k-th assignment to a
+name) as a pure function of its free variables, which must all be declared parameters (types additionally: "attr" an
+attribute value, `None`-able ints, `str * int`).
 Python has no types: the parameter / result types of each target are given in TARGETS.
 """
 import ast
@@ -43,6 +49,7 @@ LEAN_TY = {"rval": "R PVal", "str": "Str", "int": "Int", "bool": "Bool", "strs":
 LEAN_TY.update({"val": "PVal", "optnum": "Option PNum", "optint": "Option Int", "optwords": "Option (List Word)",
                 "vals": "List PVal", "unit": "Unit", "fn:words->val": "(List Word → R PVal)",
                 "fn:val,words->val": "(PVal → List Word → R PVal)"})
+LEAN_TY.update({"attr": "AttrVal", "chain": "List Str"})
 DEFAULT = {"str": "[]", "int": "0", "bool": "false", "strs": "[]"}
 
 # file, class (or None), function, parameters in Lean order (python name, type), result type
@@ -80,11 +87,45 @@ TARGETS = [
                  ("self.value_max", "optnum"), ("self.allow_none_elements", "bool"), ("self.allow_auto_elements", "bool"),
                  ("self._value_from_number", "fn:val,words->val"), ("numbers_from_words", "fn:words->val"),
                  ("words", "words"), ("master", "path")], ret="val"),
+    # --- third batch.  kind="chain": a function that climbs `primary_parent_scope`; the parent chain is a parameter
+    # (the names of the ancestors, innermost first; `None` = end of the list)
+    dict(file="common.py", cls=None, func="full_path", kind="chain",
+         params=[("self.name", "str"), ("self.primary_parent_scope", "chain")], ret="str"),
+    # kind="expr": ONE expression of a big function as a function of its free variables; pick=("if", k): the test of
+    # the k-th `if`/`elif` of the function in source order; pick=("assign", x, k): the right side of the k-th `x = ...`
+    dict(file="common.py", cls=None, func="show_attributes", kind="expr", pick=("if", 0), lean="attr_level_off",
+         params=[("attributes_level", "int")], ret="bool"),
+    dict(file="common.py", cls=None, func="show_attributes", kind="expr", pick=("if", 1), lean="attr_skip_deprecated",
+         params=[("name", "str"), ("value", "attr")], ret="bool"),
+    dict(file="common.py", cls=None, func="show_attributes", kind="expr", pick=("if", 2), lean="attr_level_gate",
+         params=[("name", "str"), ("value", "attr"), ("attributes_level", "int")], ret="bool"),
+    dict(file="common.py", cls=None, func="show_attributes", kind="expr", pick=("if", 3), lean="attr_skip_alias",
+         params=[("name", "str"), ("value", "attr")], ret="bool"),
+    dict(file="common.py", cls=None, func="show_attributes", kind="expr", pick=("assign", "indent", 0), lean="attr_indent",
+         params=[("prefix", "str"), ("name", "str")], ret="str"),
+    dict(file="common.py", cls=None, func="show_attributes", kind="expr", pick=("assign", "fits_on_one_line", 0),
+         lean="attr_fits", params=[("indent", "str"), ("value", "str"), ("print_width", "int")], ret="bool"),
+    dict(file="common.py", cls=None, func="show_attributes", kind="expr", pick=("assign", "fits_on_one_line", 1),
+         lean="attr_fits_quoted", params=[("indent", "str"), ("value", "str"), ("print_width", "int")], ret="bool"),
+    dict(file="common.py", cls=None, func="show_attributes", kind="expr", pick=("if", 8), lean="attr_need_quote",
+         params=[("value", "str"), ("fits_on_one_line", "bool")], ret="bool"),
+    dict(file="common.py", cls="definition", func="show", kind="expr", pick=("if", 0), lean="definition_template_gate",
+         params=[("self.is_template", "int"), ("attributes_level", "int")], ret="bool"),
+    dict(file="common.py", cls="definition", func="show", kind="expr", pick=("if", 1), lean="definition_deprecated_gate",
+         params=[("self.deprecated", "attr"), ("attributes_level", "int")], ret="bool"),
+    dict(file="common.py", cls="definition", func="show", kind="expr", pick=("if", 2), lean="definition_expert_gate",
+         params=[("self.expert_level", "optint"), ("expert_level", "optint")], ret="bool"),
+    dict(file="common.py", cls="scope", func="show", kind="expr", pick=("if", 0), lean="scope_template_gate",
+         params=[("self.is_template", "int"), ("attributes_level", "int")], ret="bool"),
+    dict(file="common.py", cls="scope", func="show", kind="expr", pick=("if", 1), lean="scope_expert_gate",
+         params=[("self.expert_level", "optint"), ("expert_level", "optint")], ret="bool"),
+    dict(file="common.py", cls="definition", func="show", kind="expr", pick=("if", 8), lean="definition_wrap_test",
+         params=[("line_plus", "str"), ("print_width", "int"), ("line", "str"), ("indent", "str")], ret="bool"),
 ]
 
 LEAN_KEYWORDS = {"at", "from", "fun", "end", "in", "then", "else", "do", "let", "have", "show", "match", "with",
                  "if", "open", "def", "theorem", "where", "by", "instance", "structure", "class", "namespace",
-                 "section", "variable", "universe", "import", "export", "mutual", "type", "Type", "Prop", "Sort"}
+                 "section", "variable", "universe", "prefix", "infix", "postfix", "notation", "macro", "syntax", "import", "export", "mutual", "type", "Type", "Prop", "Sort"}
 
 
 def lname(py):
@@ -853,10 +894,186 @@ class FnM(Fn):
         return [], "/-- %s -/\ndef %s %s : R %s :=\n%s\n" % (where, tname(t), binders, LEAN_TY[t["ret"]], body)
 
 
+def stmts_in_order(body):
+    """all statements below `body` in source order (nested function / class definitions are not entered)"""
+    for st in body:
+        yield st
+        if isinstance(st, (ast.FunctionDef, ast.ClassDef)):
+            continue
+        for field in ("body", "orelse", "finalbody"):
+            sub = getattr(st, field, None)
+            if isinstance(sub, list):
+                for x in stmts_in_order(sub):
+                    yield x
+        for h in getattr(st, "handlers", []):
+            for x in stmts_in_order(h.body):
+                yield x
+
+
+class FnX(FnM):
+    """ONE expression of a function (picked by position) as a pure function of its free variables"""
+
+    def E(self, e, env):
+        if isinstance(e, ast.Compare) and len(e.ops) == 1:
+            op, rhs = e.ops[0], e.comparators[0]
+            if isinstance(op, (ast.Is, ast.IsNot)) and isinstance(rhs, ast.Constant) and rhs.value is None:
+                a, ta = self.E(e.left, env)
+                if ta == "attr":
+                    r = "(Py.attrIsNone %s)" % a
+                    return ("(!%s)" % r if isinstance(op, ast.IsNot) else r), "bool"
+            if isinstance(op, (ast.Lt, ast.LtE, ast.Gt, ast.GtE)):
+                a, ta = self.E(e.left, env)
+                b, tb = self.E(rhs, env)
+                if ta == tb == "optint":
+                    sym = {ast.Lt: "<", ast.LtE: "≤", ast.Gt: ">", ast.GtE: "≥"}[type(op)]
+                    return "decide (%s %s %s)" % (self.coerce(a, ta, "int", e), sym, self.coerce(b, tb, "int", e)), "bool"
+        if isinstance(e, ast.BinOp) and isinstance(e.op, ast.Mult):
+            a, ta = self.E(e.left, env)
+            b, tb = self.E(e.right, env)
+            if ta == "str" and tb == "int":
+                return "(Py.repeat_ %s %s)" % (a, b), "str"
+            self.refuse(e, "* on %s, %s" % (ta, tb))
+        return FnM.E(self, e, env)
+
+    def B(self, e, env):
+        v, ty = self.E(e, env)
+        if ty == "attr":
+            return "(Py.attrTruthy %s)" % v
+        if ty == "bool":
+            return v
+        if ty == "str":
+            return "(Py.truthy %s)" % v
+        self.refuse(e, "truth value of %s" % ty)
+
+    def picked(self):
+        pick = self.t["pick"]
+        k = 0
+        for st in stmts_in_order(self.node.body):
+            if pick[0] == "if" and isinstance(st, ast.If):
+                if k == pick[1]:
+                    return st.test, True
+                k += 1
+            if (pick[0] == "assign" and isinstance(st, ast.Assign) and len(st.targets) == 1
+                    and isinstance(st.targets[0], ast.Name) and st.targets[0].id == pick[1]):
+                if k == pick[2]:
+                    return st.value, False
+                k += 1
+        raise Refuse("%s: no %s" % (tname(self.t), (pick,)))
+
+    def render(self):
+        t = self.t
+        self.has_where = False
+        expr, is_test = self.picked()
+        plain = [p for p, _ in t["params"] if not p.startswith("self.")]
+        ln = lambda p: ("self_" + p[5:]) if (p.startswith("self.") and p[5:] in plain) else lname(p)
+        env = {p: (ln(p), ty) for p, ty in t["params"]}
+        # every free variable of the expression must be a declared parameter
+        if is_test and t["ret"] == "bool":
+            v, ty = self.B(expr, env), "bool"
+        else:
+            v, ty = self.E(expr, env)
+        if ty != t["ret"]:
+            raise Refuse("%s: the expression has type %s, declared %s" % (tname(t), ty, t["ret"]))
+        binders = " ".join("(%s : %s)" % (ln(p), LEAN_TY[ty]) for p, ty in t["params"])
+        where = "%s%s.%s, %s" % (t["file"], ":" + t["cls"] if t["cls"] else "", t["func"],
+                                 "test of `if` number %d" % t["pick"][1] if t["pick"][0] == "if"
+                                 else "right side of assignment number %d to %s" % (t["pick"][2], t["pick"][1]))
+        sets = [(s_, "/-- %s: module-level character set %s -/\ndef %s : List Char := %s\n" % (
+            t["file"], s_, s_, "[" + ", ".join(chr_lit(c) for c in self.sets[s_]) + "]")) for s_ in self.used_sets]
+        return sets, "/-- %s -/\ndef %s %s : %s :=\n  %s\n" % (where, tname(t), binders, LEAN_TY[t["ret"]], v)
+
+
+class FnChain(Fn):
+    """a function that climbs the `primary_parent_scope` chain with a `while X is not None:` loop collecting strings
+    into a list: the loop becomes a structural recursion over the chain parameter (type "chain")"""
+
+    def E(self, e, env):
+        if isinstance(e, ast.List) and len(e.elts) == 1:
+            v, ty = self.E(e.elts[0], env)
+            if ty == "str":
+                return "[%s]" % v, "strs"
+        if (isinstance(e, ast.Attribute) and e.attr == "name" and isinstance(e.value, ast.Name)
+                and env.get(e.value.id, ("", ""))[1] == "chainhead"):
+            return env[e.value.id][0], "str"
+        return Fn.E(self, e, env)
+
+    def call(self, e, env):
+        f = e.func
+        if (isinstance(f, ast.Attribute) and f.attr == "join" and isinstance(f.value, ast.Constant)
+                and isinstance(f.value.value, str) and len(e.args) == 1 and not e.keywords):
+            v, ty = self.E(e.args[0], env)
+            if ty == "strs":
+                return "(Py.join %s %s)" % (str_lit(f.value.value), v), "str"
+        return Fn.call(self, e, env)
+
+    def is_parent_of(self, e, var):
+        return (isinstance(e, ast.Attribute) and e.attr == "primary_parent_scope" and isinstance(e.value, ast.Name)
+                and e.value.id == var)
+
+    def S(self, stmts, env, ind):
+        pad = "  " * ind
+        if stmts:
+            st, rest = stmts[0], stmts[1:]
+            if (isinstance(st, ast.Expr) and isinstance(st.value, ast.Call) and isinstance(st.value.func, ast.Attribute)
+                    and st.value.func.attr == "reverse" and isinstance(st.value.func.value, ast.Name)
+                    and not st.value.args and not st.value.keywords
+                    and env.get(st.value.func.value.id, ("", ""))[1] == "strs"):
+                x = env[st.value.func.value.id][0]
+                return "%slet %s : List Str := %s.reverse\n%s" % (pad, x, x, self.S(rest, env, ind))
+            if isinstance(st, ast.While):
+                t = st.test
+                if not (isinstance(t, ast.Compare) and len(t.ops) == 1 and isinstance(t.ops[0], ast.IsNot)
+                        and isinstance(t.comparators[0], ast.Constant) and t.comparators[0].value is None
+                        and isinstance(t.left, ast.Name) and env.get(t.left.id, ("", ""))[1] == "chain") or st.orelse:
+                    self.refuse(st, "while loop that is not `while X is not None` on a parent chain")
+                var = t.left.id
+                body = list(st.body)
+                if len(body) < 2:
+                    self.refuse(st, "loop body")
+                step, app, guards = body[-1], body[-2], body[:-2]
+                if not (isinstance(step, ast.Assign) and len(step.targets) == 1 and isinstance(step.targets[0], ast.Name)
+                        and step.targets[0].id == var and self.is_parent_of(step.value, var)):
+                    self.refuse(step, "the loop does not end with `X = X.primary_parent_scope`")
+                if not (isinstance(app, ast.Expr) and isinstance(app.value, ast.Call) and isinstance(app.value.func, ast.Attribute)
+                        and app.value.func.attr == "append" and isinstance(app.value.func.value, ast.Name)
+                        and len(app.value.args) == 1 and not app.value.keywords
+                        and env.get(app.value.func.value.id, ("", ""))[1] == "strs"):
+                    self.refuse(app, "the loop does not append to a list of strings")
+                acc = app.value.func.value.id
+                envb = {var: (lname(var) + "_name", "chainhead"), acc: env[acc]}
+                tests = []
+                for g in guards:
+                    if not (isinstance(g, ast.If) and not g.orelse and len(g.body) == 1 and isinstance(g.body[0], ast.Break)):
+                        self.refuse(g, "loop statement other than `if test: break`")
+                    tests.append(self.B(g.test, envb))
+                item, ti = self.E(app.value.args[0], envb)
+                if ti != "str":
+                    self.refuse(app, "appends a %s" % ti)
+                for n in rest:
+                    if any(isinstance(x, ast.Name) and x.id == var for x in ast.walk(n)):
+                        self.refuse(st, "the chain variable is used after the loop")
+                a = env[acc][0]
+                aux = "%s_climb" % self.t["func"]
+                body_txt = "%s %s_rest (%s ++ [%s])" % (aux, lname(var), a, item)
+                for c in reversed(tests):
+                    body_txt = "if %s then %s else %s" % (c, a, body_txt)
+                self.aux = ("/-- the `while %s is not None` loop of %s: one step per ancestor -/\n"
+                            "def %s : List Str → List Str → List Str\n  | [], %s => %s\n  | %s_name :: %s_rest, %s =>\n    %s\n" % (
+                                var, self.t["func"], aux, a, a, lname(var), lname(var), a, body_txt))
+                return "%slet %s : List Str := %s %s %s\n%s" % (pad, a, aux, env[var][0], a, self.S(rest, env, ind))
+        return Fn.S(self, stmts, env, ind)
+
+    def render(self):
+        self.aux = ""
+        sets, text = Fn.render(self)
+        return sets, self.aux + text
+
+
 HEADER = """/-
   GENERATED by harness/translate.py from src/freephil — do not edit.
   Lean translations of pure leaf functions, regenerated on every check run; semantics of the Python subset:
-  Phil/Generated/PyPrelude.lean; equality with the hand-written model: Phil/Props/Translated.lean, Phil/Props/Translated2.lean.
+  Phil/Generated/PyPrelude.lean; equality with the hand-written model: Phil/Props/Translated.lean, Phil/Props/Translated2.lean,
+  Phil/Props/Translated3.lean.
 -/
 import Phil.Generated.PyPrelude
 set_option linter.unusedVariables false
@@ -873,7 +1090,7 @@ def translate(old_text=None):
     """returns (text, notes).  A refused function keeps its committed block (if any) and yields a note."""
     notes = []
     old = blocks_of(old_text)
-    known = {t["func"]: t for t in TARGETS if not t.get("monadic")}
+    known = {t["func"]: t for t in TARGETS if not t.get("monadic") and not t.get("kind")}
     trees = {}
     out = [HEADER]
     emitted_sets = set()
@@ -884,7 +1101,8 @@ def translate(old_text=None):
                 tree = ast.parse(_src(t["file"]))
                 trees[t["file"]] = (tree, char_sets(tree))
             tree, sets = trees[t["file"]]
-            fn = (FnM if t.get("monadic") else Fn)(t, find_func(tree, t["cls"], t["func"]), sets, known)
+            cls_ = {"expr": FnX, "chain": FnChain}.get(t.get("kind")) or (FnM if t.get("monadic") else Fn)
+            fn = cls_(t, find_func(tree, t["cls"], t["func"]), sets, known)
             fn.alltargets = TARGETS
             set_defs, text = fn.render()
             block = "".join(d for s, d in set_defs if s not in emitted_sets) + text
